@@ -17,34 +17,34 @@ errors and panics of the sub-routines propagate unchanged. -/
 theorem setter_frame (ext : Ext ℝ) (p : Path) (s : Setup ℝ) (v : ℝ)
     (hs : WellFormed s) (hv : InRange p v) :
     (setter ext p s v).map asConfig
-      = (target ext p s v).map fun x => (asConfig s).setField p (sigfigs x) := by
+      = (target ext p s v).map fun x => (asConfig s).setField p (fieldRound p x) := by
   cases p
   case signalPhi =>
     simp [setter, setterG, target, Outcome.map, asConfig, asConfigG, Config.setField, Beam.toCfg,
-      Beam.setPhi, Beam.wavelength, normAngle_deg hv.1 hv.2, deg_roundtrip]
+      Beam.setPhi, Beam.wavelength, normAngle_deg hv.1 hv.2, deg_roundtrip, fieldRound]
   case idlerPhi =>
     simp [setter, setterG, target, Outcome.map, asConfig, asConfigG, Config.setField, Beam.toCfg,
-      Beam.setPhi, Beam.wavelength, normAngle_deg hv.1 hv.2, deg_roundtrip, setIdler]
+      Beam.setPhi, Beam.wavelength, normAngle_deg hv.1 hv.2, deg_roundtrip, setIdler, fieldRound]
   case signalTheta =>
     simp [setter, setterG, target, Outcome.map, asConfig, asConfigG, Config.setField, Beam.toCfg,
       Beam.setThetaInternal, Beam.wavelength, normAngleSigned_deg hv.1 hv.2, deg_roundtrip,
-      setBeamTheta]
+      setBeamTheta, fieldRound]
   case idlerTheta =>
     simp [setter, setterG, target, Outcome.map, asConfig, asConfigG, Config.setField, Beam.toCfg,
       Beam.setThetaInternal, Beam.wavelength, normAngleSigned_deg hv.1 hv.2, deg_roundtrip,
-      setBeamTheta, setIdler]
+      setBeamTheta, setIdler, fieldRound]
   case signalThetaExternal =>
-    simp only [setter, setterG, target, Beam.setThetaExternal, abs_eq]
+    simp only [setter, setterG, target, Beam.setThetaExternal, Cfg.abs_eq, fieldRound]
     cases ext.snell s.signal |v * deg| s.crystal <;>
       simp [Outcome.map, asConfig, asConfigG, Config.setField, Beam.toCfg, Beam.setAngles,
         Beam.wavelength, setBeamTheta, hs.1]
   case idlerThetaExternal =>
-    simp only [setter, setterG, target, Beam.setThetaExternal, abs_eq]
+    simp only [setter, setterG, target, Beam.setThetaExternal, Cfg.abs_eq, fieldRound]
     cases ext.snell s.idler |v * deg| s.crystal <;>
       simp [Outcome.map, asConfig, asConfigG, Config.setField, Beam.toCfg, Beam.setAngles,
         Beam.wavelength, setBeamTheta, setIdler, hs.2]
   case polingPeriod =>
-    simp only [setter, setterG, target, assignPolingPeriod]
+    simp only [setter, setterG, target, assignPolingPeriod, fieldRound]
     cases computeSign ext s.signal s.pump s.crystal with
     | ok neg =>
       simp only [Outcome.map, asConfig, asConfigG, Config.setField, if_true, withPeriod_toCfg]
@@ -55,13 +55,24 @@ theorem setter_frame (ext : Ext ℝ) (p : Path) (s : Setup ℝ) (v : ℝ)
     simp [setter, setterG, target, Outcome.map, asConfig, asConfigG, Config.setField, Crystal.toCfg,
       Beam.toCfg, Beam.setFrequency, Beam.setWavelength, Beam.setWaist, Beam.wavelength, thzToOmega,
       thz_wavelength, wl_roundtrip, deg_roundtrip, micro_roundtrip, nano_roundtrip,
-      pmPerVolt_roundtrip, kelvin_roundtrip, mw_roundtrip, setIdler]
+      pmPerVolt_roundtrip, kelvin_roundtrip, mw_roundtrip, setIdler, fieldRound]
 
 /-- the frame rule is not vacuous: on a concrete base the rule gives an `ok` configuration -/
 example (ext : Ext ℝ) (s : Setup ℝ) (hs : WellFormed s) :
     (setter ext .signalWaist s 42).map asConfig
       = .ok ((asConfig s).setField .signalWaist (sigfigs 42)) :=
   setter_frame ext .signalWaist s 42 hs trivial
+
+/-- the rounding of the named field: `sigfigs`, except that an azimuth rounding up to 360.0000 is
+written as 0 (for 0 ≤ sigfigs v < 360 it is `sigfigs v`) -/
+theorem fieldRound_eq (p : Path) (x : ℝ) :
+    (p ≠ .signalPhi → p ≠ .idlerPhi → fieldRound p x = sigfigs x) ∧
+    (0 ≤ sigfigs x → sigfigs x < 360 → fieldRound p x = sigfigs x) ∧
+    (sigfigs x = 360 → (p = .signalPhi ∨ p = .idlerPhi) → fieldRound p x = 0) := by
+  refine ⟨?_, ?_, ?_⟩
+  · intro h1 h2; cases p <;> first | rfl | exact absurd rfl h1 | exact absurd rfl h2
+  · intro h0 h1; cases p <;> first | rfl | exact wrap360_of_mem h0 h1
+  · rintro h (rfl | rfl) <;> simp [fieldRound, h, wrap360_360]
 
 /-- **D8 (pinned tree).** With `v · 10¹²` stored as rad/s, `signal.frequency_thz = 200` reads back
 as a wavelength 2π times too long (9418.26 nm instead of 1498.96 nm): the frame rule's value is
@@ -96,6 +107,36 @@ theorem poling_period_fixed (ext : Ext ℝ) (s : Setup ℝ) (v : ℝ) (hoff : s.
   simp only [setter, setterG, assignPolingPeriod, hsign, Outcome.map, asConfig, asConfigG, if_true,
     withPeriod_toCfg]
   rw [hoff]; rfl
+
+/-- "the poling period keeps its automatically derived sign": whatever sign the base setup's
+poling carried, after the poling-period path the stored sign is the one `compute_sign` derives for
+the setup the setter is applied to (which in a two-parameter sweep already has the first
+parameter applied), and the stored magnitude is `|v|` µm. -/
+theorem poling_sign_derived (ext : Ext ℝ) (s : Setup ℝ) (v : ℝ) (neg : Bool)
+    (hsign : computeSign ext s.signal s.pump s.crystal = .ok neg) (hv : v ≠ 0) :
+    ∃ s' a, setter ext .polingPeriod s v = .ok s' ∧ s'.pp = .on (|v| * micro) neg a := by
+  have hq : 0 < |v| * micro := mul_pos (abs_pos.mpr hv) micro_pos
+  have hm : Transc.abs (v * micro) = |v| * micro := by
+    rw [abs_eq, abs_mul, abs_of_pos micro_pos]
+  have key : ∀ a : Apod ℝ, Poling.new (signMul neg (Transc.abs (v * micro))) a
+      = .on (|v| * micro) neg a := by
+    intro a
+    rw [hm]
+    generalize |v| * micro = q at hq
+    unfold Poling.new signMul
+    rw [lit_zero, lit_one]
+    cases neg
+    · simp only [Bool.false_eq_true, if_false, mul_one, if_pos hq]
+    · have h2 : ¬ (0 < q * -1) := by linarith
+      simp only [if_true, if_neg h2]
+      congr 1; ring
+  refine ⟨{ s with pp := s.pp.withPeriod (signMul neg (Transc.abs (v * micro))) },
+    (match s.pp with | .off => .off | .on _ _ a => a), ?_, ?_⟩
+  · simp only [setter, setterG, assignPolingPeriod, hsign, Outcome.map, if_true]
+  · show s.pp.withPeriod (signMul neg (Transc.abs (v * micro))) = _
+    cases s.pp with
+    | off => simp only [Poling.withPeriod, key]
+    | on p n a => simp only [Poling.withPeriod, key]
 
 /-- **T2.** every one of the 25 names is accepted and names its own path … -/
 theorem known_accepted : ∀ p ∈ Path.all, Path.ofString p.name = some p := by decide
